@@ -20,9 +20,9 @@ REC = os.path.join(BIN, 'rec')
 POSITIONS = ['cmd_arg', 'cmd_env', 'str_env', 'step_arg', 'step_env', 'test_arg',
              'test_env', 'drv_arg', 'copt_list', 'copt_str', 'lopt_list',
              'lopt_str', 'define', 'gopt', 'glopt', 'tool_word', 'cmd_word',
-             'file_arg',
+             'file_arg', 'sym_arg',
              'incdir']
-PATHLIKE = ('cmd_word', 'file_arg', 'incdir')
+PATHLIKE = ('cmd_word', 'file_arg', 'incdir', 'sym_arg')
 GLOBAL = ('gopt', 'glopt')
 # an argument inside the compiler command taken from $CC (one project each)
 SINGLE = ('tool_word',)
@@ -35,6 +35,12 @@ def word_ok(pos, w):
             return False
         if pos == 'cmd_word' and w.endswith(' '):
             pass
+    if pos == 'sym_arg':
+        # the file becomes a prerequisite of a rule: names outside the
+        # characters below are C04's subject (and partly its known findings)
+        if not all(c.isalnum() or c in ' $@+._-' for c in w) or \
+                w != w.strip() or '  ' in w or w.startswith('-'):
+            return False
     if pos == 'define' and w == '':
         return False      # define(name, '') is "no value" by API convention
     if pos in ('copt_str', 'lopt_str'):
@@ -203,6 +209,14 @@ def write_project(root, slots, backend):
             L.append("command(%r, cmd=[R, %r, source_file(%r)])" % (
                 'c' + i, i, 'fa/' + w))
             targets.append('c' + i)
+        elif s.pos == 'sym_arg':
+            # a symbolic-link copy of the file (with a user description): the
+            # link tool receives the file's name as the link text
+            os.makedirs(os.path.join(src, 'sy'), exist_ok=True)
+            open(os.path.join(src, 'sy', w), 'a').close()
+            L.append("copy_file(%r, source_file(%r), mode='symlink', "
+                     "description='link it')" % ('l' + i, 'sy/' + w))
+            targets.append('l' + i)
         elif s.pos == 'incdir':
             os.makedirs(os.path.join(src, 'idir', w), exist_ok=True)
             open(os.path.join(src, 's%s.c' % i), 'w').close()
@@ -262,6 +276,7 @@ def run_project(slots, backend, ninja=None):
         env = tool_env({'VERIF_NINJA_LOG': nlog, 'CC': os.path.join(BIN, 'stubcc'),
                         'CXX': os.path.join(BIN, 'stubcxx'),
                         'AR': os.path.join(BIN, 'stubar'),
+                        'SYMLINK': os.path.join(BIN, 'symlog') + ' -sf',
                         'VERIF_LOG': log})
         for s in slots:
             if s.pos == 'tool_word':
@@ -355,6 +370,16 @@ def run_project(slots, backend, ninja=None):
                         rs[0]['cwd'], x)) if os.path.exists(os.path.join(
                             rs[0]['cwd'], x)) else x)
                         for x in rs[0]['argv'][2:]]
+            elif s.pos == 'sym_arg':
+                rs = byid.get('l' + i, [])
+                ev['declared'] = [syms(os.path.join(srcreal, 'sy', w))]
+                if rs:
+                    ev['started'] = True
+                    # between the tool's own option and the link name
+                    ev['delivered'] = [syms(os.path.realpath(os.path.join(
+                        rs[0]['cwd'], x)) if os.path.exists(os.path.join(
+                            rs[0]['cwd'], x)) else x)
+                        for x in rs[0]['argv'][3:-1]]
             elif s.pos == 'drv_arg':
                 ev['declared'] = []
                 child = [REC, i, w]
